@@ -1260,6 +1260,13 @@ class C20(Prop):
       return {'signature': 'document-not-well-formed', 'what': 'whole document is not well-formed: %s' % out['full_why']}
     if not out.get('body_matches', True):
       return {'signature': 'body-differs-from-content', 'what': '<body> of the whole document is not the content'}
+    cc = full_opts(case['opts'])['child_config']
+    cc_nonplain = bool(cc) and any(not (isinstance(k, str) and k and not any(c in k for c in '.[]')) for k, _ in cc)
+    if cc_nonplain and (not out.get('benign_ok') or out.get('new_tags') or out.get('new_attrs')
+                        or not out.get('skeleton_equal', True)):
+      # F60: the entry is not applied to the hostile key but is applied to the twin's plain key
+      return {'signature': 'child-config-key-not-a-plain-name:misapplied',
+              'what': 'child_config keyed by an int index or a path-like string is applied differently than for a plain key'}
     if not out.get('benign_ok'):
       return {'signature': 'benign-twin-fails', 'what': 'benign input of the same shape: %s' % out.get('benign_why')}
     if out.get('new_tags') or out.get('new_attrs'):
